@@ -33,6 +33,18 @@ func TestC12(t *testing.T) {
 				if err != nil {
 					return &caseErr{&core.Case{Prop: "C12", Kind: kind, In: append([]byte(nil), in...), Ints: []int64{int64(di), int64(init)}, Strs: []string{d.name}}, err}
 				}
+				// targets that already hold (part of) the input's own text
+				for k := 0; k < d.nderived; k++ {
+					class, _, err := d.run(in, c12Derived+k)
+					if class == "no-derived-target" {
+						continue
+					}
+					r.Eval(core.HashInts(core.Hash(in), int64(di), int64(c12Derived+k)), true)
+					r.Label("derived-target." + class)
+					if err != nil {
+						return &caseErr{&core.Case{Prop: "C12", Kind: kind, In: append([]byte(nil), in...), Ints: []int64{int64(di), int64(c12Derived + k)}, Strs: []string{d.name}}, err}
+					}
+				}
 			}
 			return nil
 		}
